@@ -220,7 +220,7 @@ func TestC20(t *testing.T) {
 			shape := ewShape(rt)
 			c := &C20FMA{DT: d.Name, Eng: eng}
 			c.A = genOpnd(rt, shape, rapid.SampledFrom(c06LayoutKinds).Draw(rt, "la"), -4, 6, 0, "a")
-			c.Y = genOpnd(rt, shape, rapid.SampledFrom([]string{"contig", "leadsliced", "contig"}).Draw(rt, "ly"), -4, 6, 0, "y")
+			c.Y = genOpnd(rt, shape, rapid.SampledFrom([]string{"contig", "leadsliced", "lazyT", "sliced", "physT", "stepsliced"}).Draw(rt, "ly"), -4, 6, 0, "y")
 			if rapid.Bool().Draw(rt, "tensorx") {
 				x := genOpnd(rt, shape, rapid.SampledFrom(c06LayoutKinds).Draw(rt, "lx"), -4, 6, 0, "x")
 				c.X = &x
